@@ -13,9 +13,9 @@
 
 using namespace gt;
 
-static const char *LEAF_SHAPES[] = {"x", "y:i", "z::i", "v#2", "w#3::i", "a#2/b", "d#2/e#2", "g#2/h:i"};
-static const char *SUB_SHAPES[] = {"s/", "t#2/", "u#3/k#2/c/", "p/::i"};
-static const int NL = 8, NS = 4;
+static const char *LEAF_SHAPES[] = {"x", "y:i", "z::i", "v#2", "w#3::i", "a#2/b", "d#2/e#2", "g#2/h:i", "r#2/7x"};
+static const char *SUB_SHAPES[] = {"s/", "t#2/", "u#3/k#2/c/", "p/::i", "n#2/4b/"};       // the last of each: a component that starts with a digit behind an index
+static const int NL = 9, NS = 5;
 
 struct Walked { const rtosc::Port *port; std::string addr; };
 static std::vector<Walked> g_walked;
@@ -282,10 +282,10 @@ int main(int argc, char **argv)
     runtime_long(top);
     // large bundles and long names without a runtime: leaf and sub-tree bundles of every size 1..130; a chain name of every length 1..900
     {
-        for(int n = 1; n <= 130; ++n) for(int sh = 0; sh < 4; ++sh, ++top) {
+        for(int n = 1; n <= 130; ++n) for(int sh = 0; sh < 5; ++sh, ++top) {
             if(!vp::mine(top)) continue;
             std::string N = std::to_string(n);
-            std::shared_ptr<Node> t = sh == 0 ? level({"q#" + N}, {}) : sh == 1 ? level({"x", "m#" + N + "/b::i"}, {}) : sh == 2 ? level({"t#" + N + "/"}, {level({"x"}, {})}) : level({"s/"}, {level({"w#" + N + "::i", "x"}, {})});
+            std::shared_ptr<Node> t = sh == 0 ? level({"q#" + N}, {}) : sh == 1 ? level({"x", "m#" + N + "/b::i"}, {}) : sh == 2 ? level({"t#" + N + "/"}, {level({"x"}, {})}) : sh == 3 ? level({"s/"}, {level({"w#" + N + "::i", "x"}, {})}) : level({"kbd/"}, {level({"key#" + N + "/velocity"}, {})});
             run_tree(t, "big|n" + N + "|sh" + std::to_string(sh));
         }
         for(int pad = 1; pad <= 900; ++pad, ++top) {
@@ -293,9 +293,9 @@ int main(int argc, char **argv)
             std::string chain(pad, 'k'); for(int k = 0; k < pad; k += 5) chain[k] = (char)('a' + (k / 5) % 26);
             run_tree(level({chain + "/"}, {level({"x", "v#2", "t#2/"}, {level({"y:i"}, {})})}), "longname|pad" + std::to_string(pad));
         }
-        vp::bound("large_static_trees", "leaf bundles q#N, m#N/b::i and sub-tree bundles t#N/, s/w#N::i for every N=1..130; a sub-tree name of every length 1..900 above {x, v#2, t#2/y:i}");
+        vp::bound("large_static_trees", "leaf bundles q#N, m#N/b::i, kbd/key#N/velocity and sub-tree bundles t#N/, s/w#N::i for every N=1..130; a sub-tree name of every length 1..900 above {x, v#2, t#2/y:i}");
     }
-    vp::bound("static_trees", "depth 1: all ordered lists of 1..3 distinct leaf shapes {x y:i z::i v#2 w#3::i a#2/b d#2/e#2 g#2/h:i}; depth 2: all ordered lists of 1..2 shapes (leaf or sub-tree {s/ t#2/ u#3/k#2/c/}) with a sub-tree x 6 representative children; depth 3" + std::string(T ? " and 4" : "") + ": chains of sub-trees with sibling leaves");
+    vp::bound("static_trees", "depth 1: all ordered lists of 1..3 distinct leaf shapes {x y:i z::i v#2 w#3::i a#2/b d#2/e#2 g#2/h:i r#2/7x}; depth 2: all ordered lists of 1..2 shapes (leaf or sub-tree {s/ t#2/ u#3/k#2/c/ p/::i n#2/4b/}) with a sub-tree x 6 representative children; depth 3" + std::string(T ? " and 4" : "") + ": chains of sub-trees with sibling leaves");
     vp::bound("walk_variants", "empty name buffer and name buffer holding '/pre/fix/'; expand_bundles=true, no runtime");
     vp::sample("tree {a#2/b, s/ -> {y:i, v#2}}: expected /a0/b /a1/b /s/y /s/v0 /s/v1");
     return vp::finish();
